@@ -475,6 +475,15 @@ impl RequestIdManager {
 		self.id_kind.into_id(self.current_id.next())
 	}
 
+	/// Reserve `len` consecutive request IDs for a batch request and return them as a range.
+	///
+	/// The whole range is taken from the ID counter atomically, so no later call, subscription or
+	/// batch is given an ID that belongs to this batch.
+	pub fn next_batch_id_range(&self, len: u64) -> Result<Range<u64>, Error> {
+		let id_start = self.current_id.next_n(len);
+		generate_batch_id_range(Id::Number(id_start), len)
+	}
+
 	/// Get a handle to the `IdKind`.
 	pub fn as_id_kind(&self) -> IdKind {
 		self.id_kind
@@ -509,8 +518,14 @@ impl CurrentId {
 	}
 
 	fn next(&self) -> u64 {
+		self.next_n(1)
+	}
+
+	/// Take `n` consecutive IDs, returns the first one.
+	fn next_n(&self, n: u64) -> u64 {
+		let n = usize::try_from(n).unwrap_or(usize::MAX);
 		self.0
-			.fetch_add(1, Ordering::Relaxed)
+			.fetch_add(n, Ordering::Relaxed)
 			.try_into()
 			.expect("usize -> u64 infallible, there are no CPUs > 64 bits; qed")
 	}
